@@ -331,6 +331,54 @@ fn mon_c01(ctx: &mut Ctx, s: &Session, l1: &[Mv], byz: u32) -> Step {
             return ctx.fail(Prop::C01, "legals.masked-partition-differs", feat, format!("legals_masked over {} masks that partition the board: {what}; {fen}", parts.len()));
         }
     }
+    // the public perft helper: its leaf counts are move-list lengths, so they must equal the
+    // reference's; depth 0 is a degenerate argument for which only safety (C07) is promised
+    if ctx.tape.choose(8) == 7 {
+        let d = match ctx.tape.choose(8) {
+            0..=2 => 1usize,
+            3..=5 => 2,
+            6 if l1.len() <= 12 => 3,
+            6 => 2,
+            _ => 0,
+        };
+        if d == 0 {
+            ctx.stats.bump("fault.degenerate-depth.perft0");
+            let n = op(Op::Perft, || s.board.perft_test(0));
+            ctx.observe_u64(n as u64);
+        } else {
+            fn perft(p: &Pos1, d: usize) -> u64 {
+                let l = p.legal_moves();
+                if d == 1 {
+                    return l.len() as u64;
+                }
+                l.iter().map(|&m| perft(&p.make(m), d - 1)).sum()
+            }
+            let want = perft(&s.model, d);
+            let got = op(Op::Generate, || s.board.perft_test(d)) as u64;
+            ctx.stats.bump("c01.perft-counts");
+            ctx.observe_u64(got);
+            if got != want {
+                fn perft2(p: &Pos1, d: usize) -> Option<u64> {
+                    let l = m2::legal_moves(p)?;
+                    if d == 1 {
+                        return Some(l.len() as u64);
+                    }
+                    let mut n = 0;
+                    for &m in &l {
+                        n += perft2(&p.make(m), d - 1)?;
+                    }
+                    Some(n)
+                }
+                if let Some(w2) = perft2(&s.model, d) {
+                    if w2 != want {
+                        ctx.stats.bump("oracle.dispute");
+                        return Err(Stop::Dispute(format!("perft({d}) M1 {want} M2 {w2} on {fen}")));
+                    }
+                }
+                return ctx.fail(Prop::C01, "legals.perft-count-differs", format!("depth={d}"), format!("perft_test({d}) = {got}, reference {want}, in {fen}"));
+            }
+        }
+    }
     // now and then: every one of the 64 x 64 x 5 triples
     if ctx.claim == Prop::C01 && ctx.tape.choose(600) == 599 {
         ctx.stats.bump("c01.is_legal.full-triple-sweeps");
